@@ -392,7 +392,19 @@ func mapRange(c *Ctx, f *ssa.Function, e ir.Effect, path string) {
 				if n := methodNameOf(call); n == "ConsumeGas" || n == "GasMeter" || n == "KVStore" {
 					problems = append(problems, "gas-metered operation ("+n+") inside the loop at "+w.InstrPos(in))
 				}
-				for _, t := range w.CalleesOf(call) {
+				targets := w.CalleesOf(call)
+				if cc := call.Common(); len(targets) == 0 && !cc.IsInvoke() && cc.StaticCallee() == nil {
+					if _, isB := cc.Value.(*ssa.Builtin); !isB {
+						// a call through a function value: every function that can be handed in is judged; one that cannot be
+						// traced to its definitions could do anything
+						ts, known := funcValueTargets(c, cc.Value, 0)
+						if !known {
+							problems = append(problems, "call through a function value of unknown origin inside the loop at "+w.InstrPos(in))
+						}
+						targets = ts
+					}
+				}
+				for _, t := range targets {
 					if reachesEffect(c, t, func(x ir.Effect) bool {
 						return isStateMutation(x) || x.Kind == "Event" || strings.HasPrefix(x.Kind, "Store")
 					}) {
@@ -1214,4 +1226,77 @@ func clockValueEnds(c *Ctx, v ssa.Value, chain []ssa.Instruction, depth int) []v
 		}
 	}
 	return out
+}
+
+// funcValueTargets: the in-scope functions a function value can denote — a function, a closure or bound method, a
+// parameter (every argument handed in at every call site of the enclosing function), a phi of those. known=false
+// when some source cannot be traced (a field, a map element, a call result ...). Out-of-scope functions are known
+// and contribute no target.
+func funcValueTargets(c *Ctx, v ssa.Value, depth int) (out []*ssa.Function, known bool) {
+	if depth > 6 {
+		return nil, false
+	}
+	w := c.W
+	switch x := v.(type) {
+	case *ssa.Function:
+		if len(x.Blocks) > 0 && w.InSet(x) {
+			return []*ssa.Function{x}, true
+		}
+		// a synthetic wrapper (bound method, interface method value): what it calls
+		for _, b := range x.Blocks {
+			for _, in := range b.Instrs {
+				if call, ok := in.(ssa.CallInstruction); ok {
+					out = append(out, w.CalleesOf(call)...)
+				}
+			}
+		}
+		return out, true
+	case *ssa.MakeClosure:
+		return funcValueTargets(c, x.Fn, depth+1)
+	case *ssa.ChangeType:
+		return funcValueTargets(c, x.X, depth+1)
+	case *ssa.Phi:
+		known = true
+		for _, e := range x.Edges {
+			ts, k := funcValueTargets(c, e, depth+1)
+			out = append(out, ts...)
+			known = known && k
+		}
+		return out, known
+	case *ssa.Parameter:
+		f := x.Parent()
+		idx := -1
+		for i, p := range f.Params {
+			if p == x {
+				idx = i
+			}
+		}
+		callers := w.Callers(f)
+		if idx < 0 || len(callers) == 0 {
+			return nil, false
+		}
+		known = true
+		n := 0
+		for _, ed := range callers {
+			cs, ok := ed.Site.(ssa.CallInstruction)
+			if !ok || ed.Kind != "static" && ed.Kind != "invoke" {
+				continue
+			}
+			cc := cs.Common()
+			args := cc.Args
+			if cc.IsInvoke() {
+				args = append([]ssa.Value{cc.Value}, args...)
+			}
+			j := idx - (len(f.Params) - len(args))
+			if j < 0 || j >= len(args) {
+				return nil, false
+			}
+			n++
+			ts, k := funcValueTargets(c, args[j], depth+1)
+			out = append(out, ts...)
+			known = known && k
+		}
+		return out, known && n > 0
+	}
+	return nil, false
 }
